@@ -27,13 +27,17 @@ Open Scope list_scope.
 (* KSecurity stands for an annotation that ValidatorConfigMap knows, that is valid on a route,
    requires a value, allows multiple instances, needs no unique value and has no `name`
    property (@Security; @ErrorResponse with a valid code behaves the same).  KUnknown is a name
-   that is not in the map (in any letter case). *)
-Inductive akind := KMethod | KRoute | KPath | KQuery | KHeader | KForm | KBody | KSecurity | KUnknown.
+   that is not in the map (in any letter case).  KHidden is @Hidden: known, valid on a route, needs no
+   value, takes no property, may appear once (@Deprecated and @Description have the same rule).  It only
+   removes the operation from the OpenAPI document: the route is validated, reduced and routed like any
+   other. *)
+Inductive akind := KMethod | KRoute | KPath | KQuery | KHeader | KForm | KBody | KSecurity | KUnknown | KHidden.
 
 (* the `name` property of the JSON5 part *)
 Inductive alias := ANone | AStr (a : str) | ANonStr.
 
-Record lattr := { la_kind : akind; la_value : str; la_alias : alias }.
+(* la_xprop: the properties object has a key that no annotation allows (a misspelt `validate`, say) *)
+Record lattr := { la_kind : akind; la_value : str; la_alias : alias; la_xprop : bool }.
 
 Inductive tbase := TPrim | TAny | TErrorT | TEnum | TPrimAlias | TNonPrimAlias | TMap | TStruct | TTime
                  | TNamedTime | TContext.
@@ -55,7 +59,7 @@ Record route := {
 
 Definition akind_n (k : akind) : nat :=
   match k with KMethod => 0 | KRoute => 1 | KPath => 2 | KQuery => 3 | KHeader => 4 | KForm => 5
-             | KBody => 6 | KSecurity => 7 | KUnknown => 8 end.
+             | KBody => 6 | KSecurity => 7 | KUnknown => 8 | KHidden => 9 end.
 Definition akind_eqb (a b : akind) : bool := Nat.eqb (akind_n a) (akind_n b).
 
 Definition is_param_kind (k : akind) : bool :=
@@ -152,6 +156,8 @@ Definition rule_of (k : akind) : option rule :=
                      ru_mutex := [KBody]; ru_props := PropsName |}
   | KBody => Some {| ru_requires_value := true; ru_allows_multiple := false; ru_unique := true;
                      ru_mutex := [KForm]; ru_props := PropsNoName |}
+  | KHidden => Some {| ru_requires_value := false; ru_allows_multiple := false; ru_unique := false;
+                       ru_mutex := []; ru_props := PropsNone |}
   | KUnknown => None
   end.
 
@@ -165,7 +171,7 @@ Definition rule_row (k : akind) : list nat :=
                 policy_n (ru_props ru)] ++ map akind_n (ru_mutex ru)
   end.
 Definition rule_table : list (list nat) :=
-  map rule_row [KMethod; KRoute; KPath; KQuery; KHeader; KForm; KBody; KSecurity].
+  map rule_row [KMethod; KRoute; KPath; KQuery; KHeader; KForm; KBody; KSecurity; KHidden].
 
 Definition supported_verbs : list str := [s "DELETE"; s "GET"; s "PATCH"; s "POST"; s "PUT"].
 Definition other_http_verbs : list str := [s "OPTIONS"; s "HEAD"; s "TRACE"; s "CONNECT"].
@@ -180,6 +186,23 @@ Definition verb_diags (i : nat) (v : str) : list diag :=
   else if smem v other_http_verbs then [err CFeatureUnsupported (AnValue i)]
   else [err CValueInvalid (AnValue i)].
 
+(* validateAnnotationProperties: ONE diagnostic, the first problem found.  No property may be given at all
+   (AllowedProperties = {}); a key that is not allowed; a `name` that is not a string.  (A key that is not
+   allowed TOGETHER with a non-string `name` on an annotation that allows `name`: whichever the map iteration
+   meets first - outside the vocabulary, the generator never produces it.) *)
+Definition props_diags (i : nat) (a : lattr) (p : prop_policy) : list diag :=
+  match la_alias a, la_xprop a with
+  | ANone, false => []
+  | al, xp =>
+      match p with
+      | PropsNone => [warn CPropsShouldNotExist (AnComment i)]
+      | PropsNoName => [warn CPropShouldNotExist (AnComment i)]
+      | PropsName =>
+          if xp then [warn CPropShouldNotExist (AnComment i)]
+          else match al with ANonStr => [warn CPropInvalidValue (AnComment i)] | _ => [] end
+      end
+  end.
+
 (* validateAnnotation for attribute number i; [seen] = names counted so far (this one included),
    [uniq] = values recorded so far *)
 Definition common_attr (seen : list akind) (uniq : list str) (i : nat) (a : lattr) : list diag :=
@@ -187,13 +210,7 @@ Definition common_attr (seen : list akind) (uniq : list str) (i : nat) (a : latt
   | None => [err CAnnotationUnknown (AnComment i)]
   | Some ru =>
       (if ru_requires_value ru && is_nil (la_value a) then [err CValueMustExist (AnComment i)] else [])
-      ++ match la_alias a, ru_props ru with
-         | ANone, _ => []
-         | _, PropsNone => [warn CPropsShouldNotExist (AnComment i)]
-         | _, PropsNoName => [warn CPropShouldNotExist (AnComment i)]
-         | AStr _, PropsName => []
-         | ANonStr, PropsName => [warn CPropInvalidValue (AnComment i)]
-         end
+      ++ props_diags i a (ru_props ru)
       ++ (if negb (ru_allows_multiple ru) && Nat.ltb 1 (count_kind (la_kind a) seen)
           then [warn CAnnotationDuplicate (AnComment i)] else [])
       ++ (if existsb (fun k => Nat.ltb 0 (count_kind k seen)) (ru_mutex ru)
@@ -723,8 +740,13 @@ Definition prop_C10_cmd (any_error_diag exit_failed routes_untouched spec_untouc
 
 (* ---------------------------------------------------------------- examples used by the proofs *)
 
-Definition mkA (k : akind) (v : string) : lattr := {| la_kind := k; la_value := s v; la_alias := ANone |}.
-Definition mkAA (k : akind) (v al : string) : lattr := {| la_kind := k; la_value := s v; la_alias := AStr (s al) |}.
+Definition mkA (k : akind) (v : string) : lattr :=
+  {| la_kind := k; la_value := s v; la_alias := ANone; la_xprop := false |}.
+Definition mkAA (k : akind) (v al : string) : lattr :=
+  {| la_kind := k; la_value := s v; la_alias := AStr (s al); la_xprop := false |}.
+(* with a property key nobody allows *)
+Definition mkAX (k : akind) (v : string) : lattr :=
+  {| la_kind := k; la_value := s v; la_alias := ANone; la_xprop := true |}.
 Definition mkP (n : string) (b : tbase) (sh : tshape) : fparam := {| fp_name := s n; fp_base := b; fp_shape := sh |}.
 Definition mkR (pre : string) (attrs : list lattr) (ps : list fparam) (rets : list rclass) : route :=
   {| r_prefix := s pre; r_attrs := attrs; r_params := ps; r_rets := rets |}.
